@@ -1,6 +1,6 @@
 (* C13 — Every failed message is queued once, flagged in ESR, and read back in order
    (device level: the mandated handlers and Node::run's error hook on the documented wiring). *)
-From VF Require Import Base Gen_Errors ErrSpec Status Status_proofs Contrib ContribSpec Contrib_proofs.
+From VF Require Import Base Gen_Errors ErrSpec Status Status_proofs Contrib ContribSpec Contrib_proofs Grammar MessageSpec ContribMeaning ContribMeaning_proofs.
 Open Scope N_scope.
 
 (* A message that fails: the state is the one left by the executed prefix, plus exactly the
@@ -65,6 +65,23 @@ Theorem C13_full_stack_refines_iff : forall d,
   <-> queue_printable d = true.
 Proof. exact contrib_refines_ops_iff. Qed.
 
+(* ... and for EVERY well-formed program message addressed to the mandated tree, in any spelling (short / long
+   mnemonics, any case, absolute or relative headers, default nodes spelled or omitted, any layout) and with any data
+   elements (right, wrong, missing, too many): [message_ops m] (ContribMeaning.v) reads the message as a list of
+   operations through the designation relation of HeaderSpec.v, and in every state reachable from power-on the full
+   stack computes the operation-level result: same device state, same returned error, same response bytes (up to
+   one unit separator left in the buffer of a message that FAILS on the query form of a command without one,
+   characterised exactly by [stray_separator]). *)
+Theorem C13_full_stack_all_messages : forall ms (m : msg) (mav : bool) (us : list sop),
+  wf_msg m = true -> message_ops m = Some us ->
+  dev_message (session_msgs dev_init ms) mav (render_msg m)
+  = Val (with_stray m (op_message (session_msgs dev_init ms) mav us)).
+Proof. exact contrib_refines_ops_sep_session. Qed.
+Theorem C13_full_stack_all_messages_exact : forall (m : msg) (mav : bool) (d : dev) (us : list sop),
+  wf_msg m = true -> queue_printable d = true -> message_ops m = Some us ->
+  (dev_message d mav (render_msg m) = Val (op_message d mav us) <-> stray_separator m = false).
+Proof. exact contrib_refines_ops_all_iff. Qed.
+
 Print Assumptions C13_fail_queues_once.
 Print Assumptions C13_ok_queues_nothing.
 Print Assumptions C13_syst_err_next.
@@ -73,3 +90,5 @@ Print Assumptions C13_syst_err_all.
 Print Assumptions C13_esr_read_clears.
 Print Assumptions C13_full_stack_refines.
 Print Assumptions C13_full_stack_refines_iff.
+Print Assumptions C13_full_stack_all_messages.
+Print Assumptions C13_full_stack_all_messages_exact.
